@@ -11,7 +11,7 @@ TECHNIQUE = ("type-level witnesses decided by rustc's trait solver: generic asse
              "future/stream type (parametric in the children), compile-fail twins as positive controls, completeness guard from "
              "the MIR driver's impl table")
 CONFIGS_QUICK = ["std"]
-CONFIGS_THOROUGH = ["std", "alloc"]
+CONFIGS_THOROUGH = ["std", "alloc", "std-rel", "alloc-rel"]
 EXPLANATION = (
     "Every exported future/stream type of the crate (array/Vec/tuple-arity-1..12 members of join, try_join, race, race_ok, merge, "
     "zip, chain; FutureGroup, StreamGroup, their Keyed views; both WaitUntil; the adapter futures reachable through associated "
